@@ -1,5 +1,734 @@
-//! Multi-array programs (C17/C18): filled in below.
+//! Multi-array programs (C17/C18).
+//!   case: arr_prog i64 <unl|lab|labn> - <rank> d0.. <n> code..      (integers as two's complement hex)
+//! The program encoding and the observation log are those of coq/Model/ArrRun.v / Arr.v.
+use std::any::Any;
+use std::panic::{catch_unwind, AssertUnwindSafe};
+
+use subjective_logic::domain::{Domain, DomainConv};
+use subjective_logic::iter::{Container, FromFn};
+use subjective_logic::multi_array::labeled::{MArrD1, MArrD2, MArrD3};
+use subjective_logic::multi_array::non_labeled::{MArr1, MArr2, MArr3};
+use subjective_logic::ops::{Indexes, Product2, Product3, Zeros};
+
 use crate::Case;
+
+const PANIC: i64 = -1;
+const END: i64 = -2;
+const ERR: i64 = -3;
+
+/// cell type of the fallible element-wise conversion: negative values are refused
+#[derive(Clone, Copy, Debug, PartialEq)]
+pub struct Ev(pub i64);
+impl TryFrom<i64> for Ev {
+    type Error = i64;
+    fn try_from(v: i64) -> Result<Self, i64> {
+        if v < 0 {
+            Err(v)
+        } else {
+            Ok(Ev(v))
+        }
+    }
+}
+
+pub fn lin(a: i64, b: i64, c: i64, d: i64, k: &[usize]) -> i64 {
+    let g = |i: usize| k.get(i).copied().unwrap_or(0) as i64;
+    a * g(0) + b * g(1) + c * g(2) + d
+}
+fn cell_update(c: i64, x: i64, i: usize) -> i64 {
+    (x * 3 + c + i as i64).rem_euclid(1000003)
+}
+
+pub enum Tf {
+    Ok(Box<dyn ArrDyn>),
+    Err(i64),
+}
+
+pub trait ArrDyn {
+    fn get(&self, k: &[usize]) -> i64;
+    fn set(&mut self, k: &[usize], v: i64);
+    fn iter_vals(&self) -> Vec<i64>;
+    fn iter_mut_apply(&mut self, c: i64) -> usize;
+    fn iter_with_log(&self) -> Vec<i64>;
+    fn down_iter(&self, i: usize) -> Option<Vec<i64>>;
+    fn down_set(&mut self, i: usize, k: &[usize], v: i64) -> Option<()>;
+    fn clone_box(&self) -> Box<dyn ArrDyn>;
+    fn eq_dyn(&self, other: &dyn ArrDyn) -> bool;
+    fn conv_asref(&self) -> Option<Vec<i64>>;
+    fn as_any(&self) -> &dyn Any;
+}
+
+pub struct Ctor {
+    pub from_fn: fn(i64, i64, i64, i64) -> Box<dyn ArrDyn>,
+    pub from_flat: fn(Vec<i64>) -> Box<dyn ArrDyn>,
+    pub zeros: fn() -> Box<dyn ArrDyn>,
+    pub try_from: fn(&[i64]) -> Option<Tf>,
+    pub product: fn(&[i64], &[i64], &[i64]) -> Option<Box<dyn ArrDyn>>,
+    pub indexes_log: fn() -> Vec<i64>,
+}
+
+fn drain_indexes<I: Iterator, F: Fn(I::Item) -> Vec<usize>>(mut it: I, f: F) -> Vec<i64> {
+    let mut log = Vec::new();
+    while let Some(k) = it.next() {
+        log.extend(f(k).into_iter().map(|x| x as i64));
+    }
+    log.push(END);
+    // two further calls after the end
+    log.push(if it.next().is_none() { 1 } else { 0 });
+    log.push(if it.next().is_none() { 1 } else { 0 });
+    log
+}
+
+macro_rules! common_dyn {
+    () => {
+        fn clone_box(&self) -> Box<dyn ArrDyn> {
+            Box::new(self.clone())
+        }
+        fn eq_dyn(&self, other: &dyn ArrDyn) -> bool {
+            match other.as_any().downcast_ref::<Self>() {
+                Some(o) => self == o,
+                None => false,
+            }
+        }
+        fn as_any(&self) -> &dyn Any {
+            self
+        }
+        fn iter_vals(&self) -> Vec<i64> {
+            let mut v = Vec::new();
+            for x in self {
+                v.push(*x);
+            }
+            v
+        }
+    };
+}
+
+// ------------------------------------------------------------------ unlabelled
+
+impl<const K0: usize> ArrDyn for MArr1<i64, K0> {
+    common_dyn!();
+    fn get(&self, k: &[usize]) -> i64 {
+        self[[k[0]]]
+    }
+    fn set(&mut self, k: &[usize], v: i64) {
+        self[[k[0]]] = v;
+    }
+    fn iter_mut_apply(&mut self, c: i64) -> usize {
+        // no IntoIterator for &mut MArr1: mutable traversal goes through indexes + IndexMut
+        let mut n = 0;
+        for k in <Self as Indexes<[usize; 1]>>::indexes() {
+            let x = self[k];
+            self[k] = cell_update(c, x, n);
+            n += 1;
+        }
+        n
+    }
+    fn iter_with_log(&self) -> Vec<i64> {
+        let mut log = Vec::new();
+        for (k, v) in self.iter_with() {
+            log.push(k[0] as i64);
+            log.push(*v);
+        }
+        log
+    }
+    fn down_iter(&self, _i: usize) -> Option<Vec<i64>> {
+        None
+    }
+    fn down_set(&mut self, _i: usize, _k: &[usize], _v: i64) -> Option<()> {
+        None
+    }
+    fn conv_asref(&self) -> Option<Vec<i64>> {
+        None
+    }
+}
+impl<const K0: usize, const K1: usize> ArrDyn for MArr2<i64, K0, K1> {
+    common_dyn!();
+    fn get(&self, k: &[usize]) -> i64 {
+        self[[k[0], k[1]]]
+    }
+    fn set(&mut self, k: &[usize], v: i64) {
+        self[[k[0], k[1]]] = v;
+    }
+    fn iter_mut_apply(&mut self, c: i64) -> usize {
+        let mut n = 0;
+        for k in <Self as Indexes<[usize; 2]>>::indexes() {
+            let x = self[k];
+            self[k] = cell_update(c, x, n);
+            n += 1;
+        }
+        n
+    }
+    fn iter_with_log(&self) -> Vec<i64> {
+        let mut log = Vec::new();
+        for (k, v) in self.iter_with() {
+            log.extend(k.iter().map(|&x| x as i64));
+            log.push(*v);
+        }
+        log
+    }
+    fn down_iter(&self, _i: usize) -> Option<Vec<i64>> {
+        None
+    }
+    fn down_set(&mut self, _i: usize, _k: &[usize], _v: i64) -> Option<()> {
+        None
+    }
+    fn conv_asref(&self) -> Option<Vec<i64>> {
+        None
+    }
+}
+impl<const K0: usize, const K1: usize, const K2: usize> ArrDyn for MArr3<i64, K0, K1, K2> {
+    common_dyn!();
+    fn get(&self, k: &[usize]) -> i64 {
+        self[[k[0], k[1], k[2]]]
+    }
+    fn set(&mut self, k: &[usize], v: i64) {
+        self[[k[0], k[1], k[2]]] = v;
+    }
+    fn iter_mut_apply(&mut self, c: i64) -> usize {
+        let mut n = 0;
+        for k in <Self as Indexes<[usize; 3]>>::indexes() {
+            let x = self[k];
+            self[k] = cell_update(c, x, n);
+            n += 1;
+        }
+        n
+    }
+    fn iter_with_log(&self) -> Vec<i64> {
+        let mut log = Vec::new();
+        for (k, v) in self.iter_with() {
+            log.extend(k.iter().map(|&x| x as i64));
+            log.push(*v);
+        }
+        log
+    }
+    fn down_iter(&self, _i: usize) -> Option<Vec<i64>> {
+        None
+    }
+    fn down_set(&mut self, _i: usize, _k: &[usize], _v: i64) -> Option<()> {
+        None
+    }
+    fn conv_asref(&self) -> Option<Vec<i64>> {
+        None
+    }
+}
+
+pub fn ctor_u1<const K0: usize>() -> Ctor {
+    Ctor {
+        from_fn: |a, b, c, d| Box::new(<MArr1<i64, K0> as FromFn<[usize; 1], i64>>::from_fn(|k| lin(a, b, c, d, &k))),
+        from_flat: |v| Box::new(MArr1::<i64, K0>::from_iter(v)),
+        zeros: || Box::new(<MArr1<i64, K0> as Zeros>::zeros()),
+        try_from: |v| {
+            if v.len() != K0 {
+                return None;
+            }
+            let a: [i64; K0] = std::array::from_fn(|i| v[i]);
+            Some(match MArr1::<Ev, K0>::try_from(a) {
+                Ok(m) => Tf::Ok(Box::new(<MArr1<i64, K0> as FromFn<[usize; 1], i64>>::from_fn(|k| m[k].0))),
+                Err(e) => Tf::Err(e),
+            })
+        },
+        product: |_, _, _| None,
+        indexes_log: || drain_indexes(<MArr1<i64, K0> as Indexes<[usize; 1]>>::indexes(), |k| k.to_vec()),
+    }
+}
+pub fn ctor_u2<const K0: usize, const K1: usize>() -> Ctor {
+    Ctor {
+        from_fn: |a, b, c, d| Box::new(<MArr2<i64, K0, K1> as FromFn<[usize; 2], i64>>::from_fn(|k| lin(a, b, c, d, &k))),
+        from_flat: |v| Box::new(MArr2::<i64, K0, K1>::from_iter(v)),
+        zeros: || Box::new(<MArr2<i64, K0, K1> as Zeros>::zeros()),
+        try_from: |v| {
+            if v.len() != K0 * K1 {
+                return None;
+            }
+            let a: [[i64; K1]; K0] = std::array::from_fn(|i| std::array::from_fn(|j| v[i * K1 + j]));
+            Some(match MArr2::<Ev, K0, K1>::try_from(a) {
+                Ok(m) => Tf::Ok(Box::new(<MArr2<i64, K0, K1> as FromFn<[usize; 2], i64>>::from_fn(|k| m[k].0))),
+                Err(e) => Tf::Err(e),
+            })
+        },
+        product: |v0, v1, _| {
+            let a0: [i64; K0] = std::array::from_fn(|i| v0[i]);
+            let a1: [i64; K1] = std::array::from_fn(|i| v1[i]);
+            Some(Box::new(MArr2::<i64, K0, K1>::product2(&a0, &a1)))
+        },
+        indexes_log: || drain_indexes(<MArr2<i64, K0, K1> as Indexes<[usize; 2]>>::indexes(), |k| k.to_vec()),
+    }
+}
+pub fn ctor_u3<const K0: usize, const K1: usize, const K2: usize>() -> Ctor {
+    Ctor {
+        from_fn: |a, b, c, d| {
+            Box::new(<MArr3<i64, K0, K1, K2> as FromFn<[usize; 3], i64>>::from_fn(|k| lin(a, b, c, d, &k)))
+        },
+        from_flat: |v| Box::new(MArr3::<i64, K0, K1, K2>::from_iter(v)),
+        zeros: || Box::new(<MArr3<i64, K0, K1, K2> as Zeros>::zeros()),
+        try_from: |v| {
+            if v.len() != K0 * K1 * K2 {
+                return None;
+            }
+            let a: [[[i64; K2]; K1]; K0] = std::array::from_fn(|i| {
+                std::array::from_fn(|j| std::array::from_fn(|l| v[(i * K1 + j) * K2 + l]))
+            });
+            Some(match MArr3::<Ev, K0, K1, K2>::try_from(a) {
+                Ok(m) => Tf::Ok(Box::new(<MArr3<i64, K0, K1, K2> as FromFn<[usize; 3], i64>>::from_fn(|k| m[k].0))),
+                Err(e) => Tf::Err(e),
+            })
+        },
+        product: |v0, v1, v2| {
+            let a0: [i64; K0] = std::array::from_fn(|i| v0[i]);
+            let a1: [i64; K1] = std::array::from_fn(|i| v1[i]);
+            let a2: [i64; K2] = std::array::from_fn(|i| v2[i]);
+            Some(Box::new(MArr3::<i64, K0, K1, K2>::product3(&a0, &a1, &a2)))
+        },
+        indexes_log: || drain_indexes(<MArr3<i64, K0, K1, K2> as Indexes<[usize; 3]>>::indexes(), |k| k.to_vec()),
+    }
+}
+
+// -------------------------------------------------------------------- labelled
+
+/// a sibling domain of the same size (for DomainConv)
+pub trait HasSibling: Domain + Sized {
+    type Sib: Domain + From<Self>;
+}
+
+fn ix<D: Domain>(i: usize) -> D::Idx {
+    D::Idx::from(i)
+}
+fn xi<D: Domain>(i: D::Idx) -> usize {
+    i.into()
+}
+
+impl<D0: HasSibling + 'static> ArrDyn for MArrD1<D0, i64> {
+    common_dyn!();
+    fn get(&self, k: &[usize]) -> i64 {
+        self[ix::<D0>(k[0])]
+    }
+    fn set(&mut self, k: &[usize], v: i64) {
+        self[ix::<D0>(k[0])] = v;
+    }
+    fn iter_mut_apply(&mut self, c: i64) -> usize {
+        let mut n = 0;
+        for x in self.iter_mut() {
+            *x = cell_update(c, *x, n);
+            n += 1;
+        }
+        n
+    }
+    fn iter_with_log(&self) -> Vec<i64> {
+        let mut log = Vec::new();
+        for (k, v) in self.iter_with() {
+            log.push(xi::<D0>(k) as i64);
+            log.push(*v);
+        }
+        log
+    }
+    fn down_iter(&self, _i: usize) -> Option<Vec<i64>> {
+        None
+    }
+    fn down_set(&mut self, _i: usize, _k: &[usize], _v: i64) -> Option<()> {
+        None
+    }
+    fn conv_asref(&self) -> Option<Vec<i64>> {
+        // conv to the sibling domain, then as_ref of the original
+        let s: MArrD1<D0::Sib, i64> = self.clone().conv();
+        let mut log: Vec<i64> = s.iter().copied().collect();
+        log.push(END);
+        let r: MArrD1<D0, &i64> = self.as_ref();
+        log.extend(r.iter().map(|x| **x));
+        log.push(END);
+        Some(log)
+    }
+}
+impl<D0: Domain + 'static, D1: Domain + 'static> ArrDyn for MArrD2<D0, D1, i64> {
+    common_dyn!();
+    fn get(&self, k: &[usize]) -> i64 {
+        self[(ix::<D0>(k[0]), ix::<D1>(k[1]))]
+    }
+    fn set(&mut self, k: &[usize], v: i64) {
+        self[(ix::<D0>(k[0]), ix::<D1>(k[1]))] = v;
+    }
+    fn iter_mut_apply(&mut self, c: i64) -> usize {
+        let mut n = 0;
+        for x in self.iter_mut() {
+            *x = cell_update(c, *x, n);
+            n += 1;
+        }
+        n
+    }
+    fn iter_with_log(&self) -> Vec<i64> {
+        let mut log = Vec::new();
+        for (k, v) in self.iter_with() {
+            log.push(xi::<D0>(k.0) as i64);
+            log.push(xi::<D1>(k.1) as i64);
+            log.push(*v);
+        }
+        log
+    }
+    fn down_iter(&self, i: usize) -> Option<Vec<i64>> {
+        Some(self.down(ix::<D0>(i)).iter().copied().collect())
+    }
+    fn down_set(&mut self, i: usize, k: &[usize], v: i64) -> Option<()> {
+        self.down_mut(ix::<D0>(i))[ix::<D1>(k[0])] = v;
+        Some(())
+    }
+    fn conv_asref(&self) -> Option<Vec<i64>> {
+        None
+    }
+}
+impl<D0: Domain + 'static, D1: Domain + 'static, D2: Domain + 'static> ArrDyn for MArrD3<D0, D1, D2, i64> {
+    common_dyn!();
+    fn get(&self, k: &[usize]) -> i64 {
+        self[(ix::<D0>(k[0]), ix::<D1>(k[1]), ix::<D2>(k[2]))]
+    }
+    fn set(&mut self, k: &[usize], v: i64) {
+        self[(ix::<D0>(k[0]), ix::<D1>(k[1]), ix::<D2>(k[2]))] = v;
+    }
+    fn iter_mut_apply(&mut self, c: i64) -> usize {
+        let mut n = 0;
+        for x in self.iter_mut() {
+            *x = cell_update(c, *x, n);
+            n += 1;
+        }
+        n
+    }
+    fn iter_with_log(&self) -> Vec<i64> {
+        let mut log = Vec::new();
+        for (k, v) in self.iter_with() {
+            log.push(xi::<D0>(k.0) as i64);
+            log.push(xi::<D1>(k.1) as i64);
+            log.push(xi::<D2>(k.2) as i64);
+            log.push(*v);
+        }
+        log
+    }
+    fn down_iter(&self, i: usize) -> Option<Vec<i64>> {
+        Some(self.down(ix::<D0>(i)).iter().copied().collect())
+    }
+    fn down_set(&mut self, i: usize, k: &[usize], v: i64) -> Option<()> {
+        self.down_mut(ix::<D0>(i))[(ix::<D1>(k[0]), ix::<D2>(k[1]))] = v;
+        Some(())
+    }
+    fn conv_asref(&self) -> Option<Vec<i64>> {
+        None
+    }
+}
+
+fn chunk(v: &[i64], n: usize) -> Vec<Vec<i64>> {
+    if n == 0 {
+        Vec::new()
+    } else {
+        v.chunks(n).map(|c| c.to_vec()).collect()
+    }
+}
+
+pub fn ctor_l1<D0: HasSibling + 'static>() -> Ctor {
+    Ctor {
+        from_fn: |a, b, c, d| {
+            Box::new(<MArrD1<D0, i64> as FromFn<D0::Idx, i64>>::from_fn(|k| lin(a, b, c, d, &[xi::<D0>(k)])))
+        },
+        from_flat: |v| Box::new(MArrD1::<D0, i64>::from_iter(v)),
+        zeros: || {
+            let z = <MArrD1<D0, i64> as Zeros>::zeros();
+            assert!(z == MArrD1::<D0, i64>::default(), "zeros() differs from default()");
+            Box::new(z)
+        },
+        try_from: |v| {
+            Some(match MArrD1::<D0, Ev>::try_from(v.to_vec()) {
+                Ok(m) => Tf::Ok(Box::new(<MArrD1<D0, i64> as FromFn<D0::Idx, i64>>::from_fn(|k| m[k].0))),
+                Err(e) => Tf::Err(e),
+            })
+        },
+        product: |_, _, _| None,
+        indexes_log: || drain_indexes(<MArrD1<D0, i64> as Indexes<D0::Idx>>::indexes(), |k| vec![xi::<D0>(k)]),
+    }
+}
+pub fn ctor_l2<D0: Domain + 'static, D1: Domain + 'static>() -> Ctor {
+    Ctor {
+        from_fn: |a, b, c, d| {
+            Box::new(<MArrD2<D0, D1, i64> as FromFn<(D0::Idx, D1::Idx), i64>>::from_fn(|k| {
+                lin(a, b, c, d, &[xi::<D0>(k.0), xi::<D1>(k.1)])
+            }))
+        },
+        from_flat: |v| Box::new(MArrD2::<D0, D1, i64>::from_iter(v)),
+        zeros: || {
+            let z = <MArrD2<D0, D1, i64> as Zeros>::zeros();
+            assert!(z == MArrD2::<D0, D1, i64>::default(), "zeros() differs from default()");
+            Box::new(z)
+        },
+        try_from: |v| {
+            let nested = chunk(v, D1::LEN);
+            Some(match MArrD2::<D0, D1, Ev>::try_from(nested) {
+                Ok(m) => Tf::Ok(Box::new(<MArrD2<D0, D1, i64> as FromFn<(D0::Idx, D1::Idx), i64>>::from_fn(
+                    |k| m[k].0,
+                ))),
+                Err(e) => Tf::Err(e),
+            })
+        },
+        product: |v0, v1, _| {
+            let a0 = MArrD1::<D0, i64>::from_iter(v0.to_vec());
+            let a1 = MArrD1::<D1, i64>::from_iter(v1.to_vec());
+            Some(Box::new(MArrD2::<D0, D1, i64>::product2(&a0, &a1)))
+        },
+        indexes_log: || {
+            drain_indexes(<MArrD2<D0, D1, i64> as Indexes<(D0::Idx, D1::Idx)>>::indexes(), |k| {
+                vec![xi::<D0>(k.0), xi::<D1>(k.1)]
+            })
+        },
+    }
+}
+pub fn ctor_l3<D0: Domain + 'static, D1: Domain + 'static, D2: Domain + 'static>() -> Ctor {
+    Ctor {
+        from_fn: |a, b, c, d| {
+            Box::new(<MArrD3<D0, D1, D2, i64> as FromFn<(D0::Idx, D1::Idx, D2::Idx), i64>>::from_fn(|k| {
+                lin(a, b, c, d, &[xi::<D0>(k.0), xi::<D1>(k.1), xi::<D2>(k.2)])
+            }))
+        },
+        from_flat: |v| Box::new(MArrD3::<D0, D1, D2, i64>::from_iter(v)),
+        zeros: || {
+            let z = <MArrD3<D0, D1, D2, i64> as Zeros>::zeros();
+            assert!(z == MArrD3::<D0, D1, D2, i64>::default(), "zeros() differs from default()");
+            Box::new(z)
+        },
+        try_from: |v| {
+            let rows = chunk(v, D2::LEN);
+            let nested: Vec<Vec<Vec<i64>>> = if D1::LEN == 0 || D2::LEN == 0 {
+                Vec::new()
+            } else {
+                rows.chunks(D1::LEN).map(|c| c.to_vec()).collect()
+            };
+            Some(match MArrD3::<D0, D1, D2, Ev>::try_from(nested) {
+                Ok(m) => Tf::Ok(Box::new(
+                    <MArrD3<D0, D1, D2, i64> as FromFn<(D0::Idx, D1::Idx, D2::Idx), i64>>::from_fn(|k| m[k].0),
+                )),
+                Err(e) => Tf::Err(e),
+            })
+        },
+        product: |v0, v1, v2| {
+            let a0 = MArrD1::<D0, i64>::from_iter(v0.to_vec());
+            let a1 = MArrD1::<D1, i64>::from_iter(v1.to_vec());
+            let a2 = MArrD1::<D2, i64>::from_iter(v2.to_vec());
+            Some(Box::new(MArrD3::<D0, D1, D2, i64>::product3(&a0, &a1, &a2)))
+        },
+        indexes_log: || {
+            drain_indexes(
+                <MArrD3<D0, D1, D2, i64> as Indexes<(D0::Idx, D1::Idx, D2::Idx)>>::indexes(),
+                |k| vec![xi::<D0>(k.0), xi::<D1>(k.1), xi::<D2>(k.2)],
+            )
+        },
+    }
+}
+
+// ----------------------------------------------------------------- interpreter
+
+fn guarded<T>(f: impl FnOnce() -> T) -> Option<T> {
+    catch_unwind(AssertUnwindSafe(f)).ok()
+}
+
+pub fn interp(ct: &Ctor, rank: usize, code: &[i64]) -> Result<Vec<i64>, String> {
+    let mut log: Vec<i64> = Vec::new();
+    let mut a: Box<dyn ArrDyn> = match guarded(|| (ct.zeros)()) {
+        Some(a) => a,
+        None => return Err("zeros() panicked".into()),
+    };
+    let mut p = 0usize;
+    let n = code.len();
+    macro_rules! need {
+        ($k:expr) => {
+            if p + $k > n {
+                return Err(format!("truncated program at {}", p));
+            }
+        };
+    }
+    let us = |s: &[i64]| -> Vec<usize> { s.iter().map(|&x| x.max(0) as usize).collect() };
+    while p < n {
+        let c = code[p];
+        p += 1;
+        match c {
+            0 => {
+                need!(rank);
+                let k = us(&code[p..p + rank]);
+                p += rank;
+                log.push(guarded(|| a.get(&k)).unwrap_or(PANIC));
+            }
+            1 => {
+                need!(rank + 1);
+                let k = us(&code[p..p + rank]);
+                let v = code[p + rank];
+                p += rank + 1;
+                log.push(if guarded(|| a.set(&k, v)).is_some() { 0 } else { PANIC });
+            }
+            2 => {
+                match guarded(|| a.iter_vals()) {
+                    Some(v) => {
+                        log.extend(v);
+                        log.push(END)
+                    }
+                    None => log.push(PANIC),
+                }
+            }
+            3 => {
+                need!(1);
+                let cc = code[p];
+                p += 1;
+                match guarded(|| a.iter_mut_apply(cc)) {
+                    Some(cnt) => log.push(cnt as i64),
+                    None => log.push(PANIC),
+                }
+            }
+            4 => match guarded(|| a.iter_with_log()) {
+                Some(v) => {
+                    log.extend(v);
+                    log.push(END)
+                }
+                None => log.push(PANIC),
+            },
+            5 => match guarded(|| (ct.indexes_log)()) {
+                Some(v) => log.extend(v),
+                None => log.push(PANIC),
+            },
+            6 => {
+                need!(1);
+                let i = code[p].max(0) as usize;
+                p += 1;
+                match guarded(|| a.down_iter(i)) {
+                    Some(Some(v)) => {
+                        log.extend(v);
+                        log.push(END)
+                    }
+                    Some(None) => return Err("down on an array without sub-arrays".into()),
+                    None => log.push(PANIC),
+                }
+            }
+            7 => {
+                need!(rank + 1);
+                let i = code[p].max(0) as usize;
+                let k = us(&code[p + 1..p + rank]);
+                let v = code[p + rank];
+                p += rank + 1;
+                match guarded(|| a.down_set(i, &k, v)) {
+                    Some(Some(())) => log.push(0),
+                    Some(None) => return Err("down_mut on an array without sub-arrays".into()),
+                    None => log.push(PANIC),
+                }
+            }
+            8 => {
+                let cl = a.clone_box();
+                log.push(if cl.eq_dyn(a.as_ref()) { 1 } else { 0 });
+                log.extend(cl.iter_vals());
+                log.push(END);
+            }
+            9 => {
+                need!(rank);
+                let k = us(&code[p..p + rank]);
+                p += rank;
+                let mut cl = a.clone_box();
+                let r = guarded(|| {
+                    let v = cl.get(&k);
+                    cl.set(&k, v + 1);
+                });
+                log.push(match r {
+                    Some(()) => {
+                        if cl.eq_dyn(a.as_ref()) {
+                            1
+                        } else {
+                            0
+                        }
+                    }
+                    None => PANIC,
+                });
+            }
+            10 => {
+                need!(4);
+                let (x, y, z, d) = (code[p], code[p + 1], code[p + 2], code[p + 3]);
+                p += 4;
+                match guarded(|| (ct.from_fn)(x, y, z, d)) {
+                    Some(na) => {
+                        a = na;
+                        log.push(0)
+                    }
+                    None => log.push(PANIC),
+                }
+            }
+            11 | 13 => {
+                need!(1);
+                let len = code[p].max(0) as usize;
+                p += 1;
+                need!(len);
+                let vs = code[p..p + len].to_vec();
+                p += len;
+                if c == 11 {
+                    match guarded(|| (ct.from_flat)(vs)) {
+                        Some(na) => {
+                            a = na;
+                            log.push(0)
+                        }
+                        None => log.push(PANIC),
+                    }
+                } else {
+                    match guarded(|| (ct.try_from)(&vs)) {
+                        Some(Some(Tf::Ok(na))) => {
+                            a = na;
+                            log.push(0)
+                        }
+                        Some(Some(Tf::Err(e))) => {
+                            log.push(ERR);
+                            log.push(e)
+                        }
+                        Some(None) => return Err("try_from input of the wrong size for an unlabelled array".into()),
+                        None => log.push(PANIC),
+                    }
+                }
+            }
+            12 => match guarded(|| (ct.zeros)()) {
+                Some(na) => {
+                    a = na;
+                    log.push(0)
+                }
+                None => log.push(PANIC),
+            },
+            14 => match guarded(|| a.conv_asref()) {
+                Some(Some(v)) => log.extend(v),
+                Some(None) => return Err("conv/as_ref on an array without them".into()),
+                None => log.push(PANIC),
+            },
+            15 => {
+                let mut vs: Vec<Vec<i64>> = Vec::new();
+                for _ in 0..3 {
+                    need!(1);
+                    let len = code[p].max(0) as usize;
+                    p += 1;
+                    need!(len);
+                    vs.push(code[p..p + len].to_vec());
+                    p += len;
+                }
+                match guarded(|| (ct.product)(&vs[0], &vs[1], &vs[2])) {
+                    Some(Some(na)) => {
+                        a = na;
+                        log.push(0)
+                    }
+                    Some(None) => return Err("product on a rank-1 array".into()),
+                    None => log.push(PANIC),
+                }
+            }
+            _ => return Err(format!("bad opcode {}", c)),
+        }
+    }
+    Ok(log)
+}
+
 pub fn run(c: &Case) -> String {
-    format!("BAD arr op {} not implemented", c.op)
+    let code: Vec<i64> = c.bits.iter().map(|&b| b as i64).collect();
+    let ct = match crate::arr_gen::ctor_for(c.fam, &c.dims) {
+        Some(ct) => ct,
+        None => return format!("BAD no array instantiation for family {} dims {:?}", c.fam, c.dims),
+    };
+    match interp(&ct, c.dims.len(), &code) {
+        Ok(log) => {
+            let mut s = String::from("OK");
+            for x in log {
+                s.push(' ');
+                s.push_str(&format!("{:x}", x as u64));
+            }
+            s
+        }
+        Err(m) => format!("BAD {}", m),
+    }
 }
